@@ -66,6 +66,22 @@ def gen_sequence(rng, ctx, size="small"):
             a, b = rng.sample(live["ds"], 2)
             if ds_info[a] and ds_info[b] and ds_info[a][1] == ds_info[b][1] and ds_info[b][2] > 0:
                 ops.append("G%d,%d,%d,%d,%d" % (a, rng.randint(0, ds_info[a][2] + 1), b, rng.randint(0, ds_info[b][2]), rng.randint(0, 3)))
+            elif ds_info[a]:
+                # no compatible partner alive: make one (same descriptor list through a new template object), fill it, merge
+                ed, t, n = ds_info[a]
+                try:
+                    toks = []
+                    for _ in range(rng.choice([1, 2, 3])):
+                        subs = gen.gen_dataset(rng, ctx.T, ed, t, 1)
+                        toks.append(" ".join(gen.token(v) for _, v in subs[0]))
+                except gen.Reject:
+                    continue
+                ht = new(); hd = new()
+                ops.append("T%d=1,%d,%s" % (ht, ed, ",".join(map(str, t)))); live["tmpl"].append(ht); tmpl_desc[ht] = (ed, t)
+                ops.append("D%d=%d" % (hd, ht)); live["ds"].append(hd); ds_info[hd] = [ed, t, 0]
+                for tk in toks:
+                    ops.append("S%d:%s" % (hd, tk)); ds_info[hd][2] += 1
+                ops.append("G%d,%d,%d,%d,%d" % (a, rng.randint(0, n + 1), hd, rng.randint(0, len(toks)), rng.randint(0, 3)))
         elif r < 0.93 and (live["ds"] or live["msg"]):
             ops.append("U%d" % rng.choice(live["ds"] + live["msg"]))
         else:
@@ -84,7 +100,7 @@ def gen_sequence(rng, ctx, size="small"):
 
 def run(rep, tier, seed, replay=None):
     proved = vlib.proof_step(rep, "Properties_C16")
-    exe = vlib.build_harness("c16", wrap=["exit"])
+    exe = vlib.build_harness("c16", mode="asan0", wrap=["exit"])   # -O0: the optimiser must not elide what the source allocates
     drv = vlib.extract_and_build_driver("c16")
     ctx = codec.Ctx()
     rng = random.Random(seed)
@@ -109,6 +125,10 @@ def run(rep, tier, seed, replay=None):
         rep.count(s[:500] + str(len(s)))
         nops = s.count(";") + 1
         feat["ops<=10" if nops <= 10 else "ops<=30" if nops <= 30 else "ops>30"] += 1
+        for k in ("S", "E", "W", "X", "G", "C", "U"):
+            pass
+        if ";G" in s and " a" in s:
+            feat["merge_with_assoc_fields"] += 1
         for k in ("S", "E", "W", "X", "G", "C", "U"):
             if (";" + k) in s:
                 feat["uses_" + k] += 1
